@@ -393,8 +393,17 @@ _GETTER_METHOD = {
     "local": "get_current_local_date_time",
     "offset": "get_current_offset_date_time",
     "date": "get_current_date",
-    "time": "get_curent_time_of_day",
+    "time": ("get_curent_time_of_day", "get_current_time_of_day"),  # the published name has a typo; accept its correction too
 }
+
+
+def _getter(zc, g):
+    names = _GETTER_METHOD[g]
+    for n in (names,) if isinstance(names, str) else names:
+        m = getattr(zc, n, None)
+        if m is not None:
+            return m
+    raise AttributeError(names)
 
 
 def _render(env, now, zi, getter):
@@ -505,7 +514,7 @@ def _do_op(env, sched, ti, oi, op):
         env.clock.auto_advance = env.args[(ti, oi)]
         return None
     if k == "z":
-        return getattr(env.zclocks[op[1]], _GETTER_METHOD[op[2]])()
+        return _getter(env.zclocks[op[1]], op[2])()
     if k == "sysread":
         return env.SystemClock.instance.get_current_instant()
     if k == "sysinst":
